@@ -27,7 +27,17 @@ fn gen_script(r: &mut Rng) -> (u16, u64, Vec<(u64, u64)>) {
         runs.push((t, len));
         total += len;
         match r.below(6) {
-            0 => t = t.saturating_sub(1 + r.below(50)), // clock steps back
+            0 => {
+                // clock steps back: by milliseconds, seconds, minutes, or far (an NTP / manual reset)
+                let back = match r.below(5) {
+                    0 => 1 + r.below(50),
+                    1 => 50 + r.below(5_000),
+                    2 => 4_990 + r.below(20),
+                    3 => 5_000 + r.below(600_000),
+                    _ => 1 + r.below(1u64 << 36),
+                };
+                t = t.saturating_sub(back).max(EPOCH + 1);
+            }
             1 => {}                                      // repeated reading in a new run
             2 => t += 1,
             _ => t += 1 + r.below(1000),
@@ -87,7 +97,7 @@ fn restart_stream(a: &snel_harness::out::Args) {
                 readings.push(cur);
                 match r.below(4) {
                     0 => {}
-                    1 => cur = cur.saturating_sub(r.below(3)),
+                    1 => cur = cur.saturating_sub(match r.below(3) { 0 => r.below(3), 1 => r.below(8_000), _ => r.below(1u64 << 30) }).max(EPOCH + 1),
                     _ => cur += 1 + r.below(5),
                 }
             }
